@@ -174,6 +174,11 @@ def step (st : St) (line : String) : St × String :=
     | some i, some j, some _ =>
       if i < st.n && j < st.n then ({ st with bonds := st.bonds ++ [(i, j)] }, "ok") else (st, "unmodelled")
     | _, _, _ => (st, "bad-op")
+  -- in-place edit of the annotations of one atom (same array object on the Python side)
+  | ["setatom", k, a] =>
+    match k.toNat?, parseAtom a with
+    | some k, some a => if k < st.atoms.length then ({ st with atoms := st.atoms.set k a }, "ok") else (st, "unmodelled")
+    | _, _ => (st, "bad-op")
   | ["starts", w, stop] =>
     let addStop := stop == "1"
     match w with
